@@ -11,10 +11,7 @@ Lemma ta_add_tree_sd fw c a t a' :
   ta_splits a' = ta_splits a ++ [splits_of t].
 Proof.
   unfold ta_add_tree.
-  destruct (match ta_rooting a with
-            | Some b => if orooting_eqb (Some b) (t_rooting t) then Ok (Some b) else Err ValueErr
-            | None => Ok (t_rooting t)
-            end) as [r'| |]; try discriminate.
+  match goal with |- match ?X with _ => _ end = _ -> _ => destruct X as [r'| |]; try discriminate end.
   unfold count_tree.
   destruct (count_recs (ta_sd_cfg fw c) (weight_to_use (ta_sd_cfg fw c) t) (t_recs t)
                        (counts (ta_sd a)) (elens (ta_sd a)) (nages (ta_sd a))) as [[cnt el] ag].
